@@ -132,6 +132,17 @@ def _seq_mode(ck: Check, prog: Program, r) -> None:
                 for k, o in ty.callees(call, sc):
                     if k == 'ext' and str(o) in CONCURRENT_JOIN:
                         msgs.append(f'line {n.line}: `{norm(call)[:70]}` spawns/join tasks on the sequential side of the flag')
+        # nothing that spawns tasks may be reachable once the flag is known to be off
+        for e in seq_edges:
+            for nid in cfg.reachable(e.dst) | {e.dst.id}:
+                n2 = cfg.nodes[nid]
+                for call in calls_in(n2):
+                    for k, o in ty.callees(call, sc):
+                        if k == 'ext' and str(o) in CONCURRENT_JOIN:
+                            m = (f'line {n2.line}: `{norm(call)[:70]}` is reachable with concurrent batch execution switched off '
+                                 f'(via `{norm(c.ast)}` false): some batches are still run concurrently')
+                            if m not in msgs:
+                                msgs.append(m)
         if not seq_calls:
             msgs.append('the sequential side of the flag does not run the element handler')
         for n, call in seq_calls:
